@@ -86,3 +86,41 @@ inductive ConformsFields (cfg : Cfg) (env : Names) :
 end
 
 end Avro
+
+namespace Avro
+
+/-! ### schema well-formedness the decoder-side theorems need (what the parser guarantees) -/
+
+mutual
+/-- unions have fewer than 2^32 branches (so `index as u32` is exact) and record field names
+are unique. -/
+def wfS : Schema → Bool
+  | .array s => wfS s
+  | .map s => wfS s
+  | .union bs => decide (bs.length < 2^32) && wfList bs
+  | .record _ fs => decide ((fs.map (fun f => f.1.name)).Nodup) && wfFields fs
+  | _ => true
+def wfList : List Schema → Bool
+  | [] => true
+  | s :: ss => wfS s && wfList ss
+def wfFields : List (FieldMeta × Schema) → Bool
+  | [] => true
+  | (_, s) :: fs => wfS s && wfFields fs
+end
+
+/-- what `ResolvedSchema` guarantees about the names table: entries are definitions (never a
+`Ref`) and are well formed. -/
+def EnvOk (env : Names) : Prop := ∀ n s, env.find? n = some s → notRef s ∧ wfS s = true
+
+/-- facts about the *modelled third-party primitives* (num-bigint signed bytes, uuid text).  They are
+statements about Lean functions; the ones proved so far are in `AvroProofs/Lemmas/Prim.lean`, the
+others are carried as explicit hypotheses of the theorems that need them. -/
+structure PrimFacts : Prop where
+  signExtend_fromSignedBE : ∀ b : Bytes, signExtend (fromSignedBE b) b.length = .ok b
+  fromSignedBE_toSignedBE : ∀ u : Int, fromSignedBE (toSignedBE u) = u
+  toSignedBE_fromSignedBE_len : ∀ b : Bytes, (toSignedBE (fromSignedBE b)).length ≤ max 1 b.length
+  uuid_text : ∀ b : Bytes, b.length = 16 →
+    validUtf8 (uuidToText b) = true ∧ uuidParse (uuidToText b) = some b ∧ (uuidToText b).length = 36
+  uuidParse_len : ∀ s b : Bytes, uuidParse s = some b → b.length = 16
+
+end Avro
